@@ -68,9 +68,12 @@ func (lb *NginxRoundRobinLoadBalance) getIndex() int {
 func (lb *NginxRoundRobinLoadBalance) Handler(ctx context.Context, request []byte, next core.NextIOHandler) (response []byte, err error) {
 	index := lb.getIndex()
 	core.GetClientContext(ctx).URL = lb.URLs[index]
+	panicking := true // panic(nil) makes recover return nil: only this tells it from a return
 	defer func() {
 		if e := recover(); e != nil {
 			err = core.NewPanicError(e)
+		} else if panicking {
+			err = core.NewPanicError("panic called with nil argument")
 		}
 		lb.lock.Lock()
 		if err == nil {
@@ -82,5 +85,7 @@ func (lb *NginxRoundRobinLoadBalance) Handler(ctx context.Context, request []byt
 		}
 		lb.lock.Unlock()
 	}()
-	return next(ctx, request)
+	response, err = next(ctx, request)
+	panicking = false
+	return
 }
